@@ -42,6 +42,12 @@ func vfResolverConfig(dir string, w *vfworld.World) *config.Config {
 
 // vfStartResolver must be called inside a synctest bubble.
 func vfStartResolver(cfg *config.Config, w *vfworld.World) *vfRW {
+	return vfStartResolverIn(cfg, w, true)
+}
+
+// vfStartResolverIn starts sdns over w; bubble says whether the caller runs inside a synctest bubble
+// (outside one the in-memory network runs on the wall clock).
+func vfStartResolverIn(cfg *config.Config, w *vfworld.World, bubble bool) *vfRW {
 	vfBuildMu.Lock()
 	verifhook.SetBackground(false)
 	cache.VerifResetSharedLimiters()
@@ -57,7 +63,9 @@ func vfStartResolver(cfg *config.Config, w *vfworld.World) *vfRW {
 				st.Stop()
 			}
 		}
-		synctest.Wait()
+		if bubble {
+			synctest.Wait()
+		}
 		n.Wait()
 		verifhook.SetDialer(nil)
 		middleware.Reset()
